@@ -1,6 +1,7 @@
 """C04 — ffi.cast to integer and character types follows C conversion rules.
 
-Tie: correspondence.  Every integer/char target type x every source kind (Python int of any magnitude, bool,
+Tie: regeneration of the decisive structure of cast_to_integer_or_char (branch order, strict flag, statements
+after got_value:) into coq/C04/Gen.v + correspondence.  Every integer/char target type x every source kind (Python int of any magnitude, bool,
 finite float, 1-byte bytes, one-character str, pointer/array/function cdata) x boundary and random values on the
 scratch build; int(ffi.cast(T, x)) is compared (a) with the mathematical definition computed here with Python
 ints (truncate toward zero, reduce modulo 2^bits into T's range; _Bool by non-zeroness) — the property
@@ -14,6 +15,7 @@ import subprocess
 from lib import vlib
 from lib.vlib import cz, cpair
 from props.c03 import STD, STDINT, ENUMS, ENUMS_CDEF, KS, boundary_values
+from props import c04_regen
 
 ID = "C04"
 
@@ -23,6 +25,10 @@ QUICK_TYPES = STD + ["int8_t", "uint16_t", "int32_t", "uint64_t", "intptr_t", "u
                      "ssize_t"] + CHARS + ["enum e_u", "enum e_s", "enum e_sl"]
 # the C type whose conversion semantics cffi's character types are documented to have
 C_EQUIV = {"char": "unsigned char", "char16_t": "uint_least16_t", "char32_t": "uint_least32_t"}
+
+
+def regen(ctx):
+    c04_regen.regen(ctx, vlib)
 
 
 def float_values(rng, nrand):
@@ -316,7 +322,8 @@ def run(ctx):
                        "Non-trivial = the conversion changes the value or the source is not an int; distinct by (type, source).")
     ctx.assumptions += [
         "hand-written model C04/Model.v of cast_to_integer_or_char, _my_PyObject_AsBool, cdata_int and the pointer branch "
-        "of do_cast; tied to the code by this run's differential test",
+        "of do_cast; tied to the code by this run's differential test and by C04/Gen.v (branch order, strict flag, "
+        "statements after got_value:, regenerated by tools/props/c04_regen.py — trusted translator)",
         "reading: cffi's 'char' converts like C 'unsigned char' (int() gives 0..255), char16_t/char32_t are unsigned, "
         "wchar_t has the platform's signedness (documented cffi behaviour)",
         "float.__int__ truncates toward zero (CPython); gcc as oracle for conversions C defines; little-endian x86-64",
